@@ -107,3 +107,28 @@ Proof.
   destruct (negb (String.eqb (if mem (hk_ca_type h) rsa_family then "RSA" else hk_ca_type h) "") && (0 <? hk_ca_size h)); [apply P|].
   destruct (mem n rsa_family); [apply P|exact Q].
 Qed.
+
+(* ---------- SSH-1 public key message: parse (write m) = m ---------- *)
+Definition wf_pkm (m : pkm) : Prop :=
+  zlen (p_cookie m) = 8 /\ 0 <= p_skey_e m /\ 0 <= p_skey_n m /\ 0 <= p_hkey_e m /\ 0 <= p_hkey_n m.
+
+Theorem pkm_roundtrip m p r : wf_pkm m -> write_pkm m = Ok p -> parse_pkm (p ++ r) = Ok (m, r).
+Proof.
+  intros [Hc [H1 [H2 [H3 H4]]]] Hw. unfold write_pkm, bind in Hw.
+  destruct (enc_u32 (p_skey_bits m)) as [a|] eqn:E1; [|discriminate].
+  destruct (enc_mpint1 (p_skey_e m)) as [b|] eqn:E2; [|discriminate].
+  destruct (enc_mpint1 (p_skey_n m)) as [c|] eqn:E3; [|discriminate].
+  destruct (enc_u32 (p_hkey_bits m)) as [d|] eqn:E4; [|discriminate].
+  destruct (enc_mpint1 (p_hkey_e m)) as [e|] eqn:E5; [|discriminate].
+  destruct (enc_mpint1 (p_hkey_n m)) as [f|] eqn:E6; [|discriminate].
+  destruct (enc_u32 (p_flags m)) as [g|] eqn:E7; [|discriminate].
+  destruct (enc_u32 (p_cmask m)) as [h|] eqn:E8; [|discriminate].
+  destruct (enc_u32 (p_amask m)) as [i|] eqn:E9; [|discriminate].
+  assert (Hp: p = p_cookie m ++ a ++ b ++ c ++ d ++ e ++ f ++ g ++ h ++ i) by congruence. clear Hw. subst p.
+  unfold parse_pkm, bind. rewrite <- !app_assoc. rewrite <- Hc. rewrite take_app_exact, drop_app_exact.
+  rewrite (u32_roundtrip _ _ _ E1), (mpint1_roundtrip _ _ _ H1 E2), (mpint1_roundtrip _ _ _ H2 E3),
+          (u32_roundtrip _ _ _ E4), (mpint1_roundtrip _ _ _ H3 E5), (mpint1_roundtrip _ _ _ H4 E6),
+          (u32_roundtrip _ _ _ E7), (u32_roundtrip _ _ _ E8).
+  replace i with (i ++ []) at 1 by apply app_nil_r. rewrite <- app_assoc. rewrite (u32_roundtrip _ _ _ E9).
+  cbn [app]. destruct m; reflexivity.
+Qed.
